@@ -90,6 +90,9 @@ namespace pika::threads::detail {
         PIKA_LOG(debug, "thread_data::destroy_thread({}), description({}), phase({})",
             fmt::ptr(this), this->get_description(), this->get_thread_phase());
 
+#if defined(PIKA_VERIF)
+        PIKA_VERIF_POINT(506, this);    // last reference gone: about to recycle and un-count
+#endif
         get_scheduler_base()->destroy_thread(this);
     }
 
